@@ -10,7 +10,7 @@ PROP = {
             "hand-picked syntax-error seeds; default or all-codes configuration; with or without the std library loaded; "
             "distinct = FNV of (text, config); non-trivial = the file produced >= 1 diagnostic",
     "min_nontrivial": {"quick": 100000, "thorough": 2000000},
-    "max_secs": {"quick": 50, "thorough": 900},
+    "max_secs": {"quick": 600, "thorough": 1500},
     "require_clauses": ["diagnostics-validated", "parse-errors-mapped", "family:soup", "family:corpus", "family:corpus-truncated",
                         "family:corpus-mutant", "family:lossy-bytes", "family:special", "cfg:default", "cfg:all-codes"],
     "assumptions": COMMON_ASSUME + [
